@@ -55,6 +55,9 @@ struct PageSpec {
     /// the result metadata of the statement changes right before this page is served (`:m`): with the
     /// metadata-id extension negotiated the page then carries METADATA_CHANGED, a new id and new columns
     meta_change: bool,
+    /// `:B<n>`: the RESULT body of this page is exactly `n` bytes (rows then carry a blob column; the last
+    /// row's blob is padded to reach the size) - page SIZE as a dimension (frames around and above 1 MiB)
+    body_bytes: Option<usize>,
 }
 
 #[derive(Clone, Copy, Debug, PartialEq)]
@@ -111,7 +114,17 @@ fn fmt_state(s: &Option<Vec<u8>>) -> String {
 
 fn fmt_page(p: &PageSpec) -> String {
     let f: String = if p.faults.is_empty() { "-".into() } else { p.faults.iter().collect() };
-    format!("{}:{}:{}{}", p.rows, fmt_state(&p.state), f, if p.meta_change { ":m" } else { "" })
+    format!(
+        "{}:{}:{}{}{}",
+        p.rows,
+        fmt_state(&p.state),
+        f,
+        if p.meta_change { ":m" } else { "" },
+        match p.body_bytes {
+            Some(n) => format!(":B{}", n),
+            None => String::new(),
+        }
+    )
 }
 
 fn fmt_sess_case(skip: bool, consumer: Consumer, pages: &[PageSpec]) -> String {
@@ -186,18 +199,31 @@ fn parse_case(line: &str) -> Option<Case> {
     let mut pages = Vec::new();
     for pw in &w[3..] {
         let parts: Vec<&str> = pw.split(':').collect();
-        if parts.len() != 3 && !(parts.len() == 4 && parts[3] == "m") {
+        if parts.len() < 3 || parts.len() > 5 {
             return None;
+        }
+        let (mut meta_change, mut body_bytes) = (false, None);
+        for extra in &parts[3..] {
+            if *extra == "m" && !meta_change {
+                meta_change = true;
+            } else if extra.starts_with('B') && body_bytes.is_none() {
+                body_bytes = Some(extra[1..].parse::<usize>().ok().filter(|n| *n <= 16 << 20)?);
+            } else {
+                return None;
+            }
         }
         let rows: usize = parts[0].parse().ok()?;
         let state = if parts[1] == "." { None } else { Some(unhex(parts[1])?) };
         let faults: Vec<char> = if parts[2] == "-" { vec![] } else { parts[2].chars().collect() };
-        pages.push(PageSpec { rows, state, faults, meta_change: parts.len() == 4 });
+        pages.push(PageSpec { rows, state, faults, meta_change, body_bytes });
+    }
+    if ext && pages.iter().any(|p| p.body_bytes.is_some()) {
+        return None; // sized pages use their own fixed columns (a int, c blob)
     }
     if !ext && pages.iter().any(|p| p.meta_change) {
         return None; // a metadata change can only be announced with the extension negotiated
     }
-    if downgrading && pages.iter().any(|p| p.faults.iter().any(|c| !"uWod".contains(*c))) {
+    if downgrading && pages.iter().any(|p| p.faults.iter().any(|c| !"uWodQV".contains(*c))) {
         return None; // only these faults are modelled for the downgrading policy
     }
     // which fault letters a kind knows, and where (the same rule as the model driver's `lettersOk`)
@@ -211,7 +237,9 @@ fn parse_case(line: &str) -> Option<Case> {
         || (pk_error && ext)
         // with a stopped node the outcome of next-target hops depends on where the (random) plan puts it:
         // only same-target retries are scripted together with `kill`
-        || (matches!(consumer, Consumer::Kill(_)) && (cluster < 2 || all.iter().any(|c| !"dR".contains(*c))))
+        // (on 2 nodes the plan of every fetch is determined by the coordinator, so next-target hops are
+        // scripted with `kill` as well; on 3 nodes their outcome depends on the random plan order)
+        || (matches!(consumer, Consumer::Kill(_)) && (cluster < 2 || (cluster > 2 && all.iter().any(|c| !"dR".contains(*c)))))
         || (ctl && (ext || consumer != Consumer::Eager || all.iter().any(|c| !"ud".contains(*c))))
     {
         return None;
@@ -247,6 +275,11 @@ struct Script {
     exec_nodes: Vec<usize>,
     /// how each recorded request was answered: 'p' page served, else the fault letter
     exec_answers: Vec<char>,
+    /// consistency level each recorded request carried
+    exec_cls: Vec<u16>,
+    /// sized pages: the statement's columns are (a int, c blob); blob length of every row sent
+    big: bool,
+    sent_blob_lens: Vec<usize>,
     /// `kill<k>`: (request index at the time of the kill, node stopped)
     killed: Option<(usize, usize)>,
     /// `ctl`: the page script is the answer to the CONTROL CONNECTION's system.peers query (rows = peers)
@@ -265,6 +298,15 @@ fn cols(v: usize) -> Vec<Col> {
     } else {
         vec![Col { name: "a".into(), type_id: 0x0002 }, Col { name: "b".into(), type_id: 0x0009 }]
     }
+}
+
+fn big_cols() -> Vec<Col> {
+    vec![Col { name: "a".into(), type_id: 0x0009 }, Col { name: "c".into(), type_id: 0x0003 }]
+}
+
+/// Blob of row `n` (sized pages): every byte depends on the row and on its position.
+fn blob_of(n: i32, len: usize) -> Vec<u8> {
+    (0..len).map(|i| ((n as usize).wrapping_mul(131).wrapping_add(i.wrapping_mul(7)) % 251) as u8).collect()
 }
 
 fn metadata_id(v: usize) -> Vec<u8> {
@@ -472,7 +514,7 @@ fn handler_inner(script: Arc<Mutex<Script>>, min_conn: Arc<AtomicUsize>, ext: bo
         }
         Parsed::Prepare { text } => {
             let s = script.lock().unwrap();
-            let c = cols(s.version);
+            let c = if s.big { big_cols() } else { cols(s.version) };
             let rm = ResultMeta { col_count: c.len() as i32, cols: Some(c), ..Default::default() };
             let mid = metadata_id(s.version);
             vec![Action::Respond(RESP_RESULT, body_prepared(&md5ish(text), if ext { Some(&mid[..]) } else { None }, &[], &[], &rm))]
@@ -493,6 +535,7 @@ fn handler_inner(script: Arc<Mutex<Script>>, min_conn: Arc<AtomicUsize>, ext: bo
             let node = s.cur_node;
             s.exec_nodes.push(node);
             s.exec_answers.push('p');
+            s.exec_cls.push(params.consistency);
             let mut actions = Vec::new();
             loop {
                 let fault = s.faults.get_mut(pos).and_then(|q| q.pop_front());
@@ -539,6 +582,26 @@ fn handler_inner(script: Arc<Mutex<Script>>, min_conn: Arc<AtomicUsize>, ext: bo
                         w_int(&mut extra, 2);
                         w_string(&mut extra, "SIMPLE");
                         actions.push(Action::Respond(RESP_ERROR, body_error(0x1100, "write timeout", &extra)));
+                        return actions;
+                    }
+                    Some('Q') => {
+                        // ReadTimeout with FEWER replies than required (1 of 2): the downgrading policy
+                        // retries on the same target at consistency ONE
+                        let mut extra = Vec::new();
+                        w_short(&mut extra, 0x0006);
+                        w_int(&mut extra, 1);
+                        w_int(&mut extra, 2);
+                        extra.push(0);
+                        actions.push(Action::Respond(RESP_ERROR, body_error(0x1200, "read timeout", &extra)));
+                        return actions;
+                    }
+                    Some('V') => {
+                        // Unavailable, one replica alive: the downgrading policy retries at consistency ONE
+                        let mut extra = Vec::new();
+                        w_short(&mut extra, 0x0006);
+                        w_int(&mut extra, 2);
+                        w_int(&mut extra, 1);
+                        actions.push(Action::Respond(RESP_ERROR, body_error(0x1000, "unavailable", &extra)));
                         return actions;
                     }
                     Some('U') => {
@@ -613,13 +676,31 @@ fn handler_inner(script: Arc<Mutex<Script>>, min_conn: Arc<AtomicUsize>, ext: bo
             // METADATA_CHANGED + the current id + full column specs, whatever skip_metadata says
             let current = metadata_id(version);
             let stale = s.ext && result_metadata_id.as_deref() != Some(&current[..]);
-            let c = cols(version);
+            let c = if s.big { big_cols() } else { cols(version) };
             let rm = ResultMeta {
                 col_count: c.len() as i32,
                 cols: if stale || s.always_full || !params.skip_metadata { Some(c) } else { None },
                 paging_state: state,
                 new_metadata_id: if stale { Some(current) } else { None },
             };
+            if s.big {
+                // rows (a, blob); the last row's blob is padded so that the RESULT body has exactly the
+                // scripted number of bytes
+                let values = s.sent.last().unwrap().clone();
+                let mut lens = vec![8usize; values.len()];
+                let make = |lens: &[usize]| -> Vec<Vec<Option<Vec<u8>>>> {
+                    values.iter().zip(lens.iter()).map(|(v, l)| vec![Some(v.to_be_bytes().to_vec()), Some(blob_of(*v, *l))]).collect()
+                };
+                if let (Some(target), Some(last)) = (s.pages.get(pos).and_then(|p| p.body_bytes), lens.len().checked_sub(1)) {
+                    let base = body_rows(&rm, &make(&lens)).len();
+                    if target > base {
+                        lens[last] += target - base;
+                    }
+                }
+                s.sent_blob_lens.extend(lens.iter().copied());
+                actions.push(Action::Respond(RESP_RESULT, body_rows(&rm, &make(&lens))));
+                return actions;
+            }
             if s.ctl {
                 let values = s.sent.last().unwrap().clone();
                 actions.push(Action::Respond(RESP_RESULT, body_peer_rows(params.skip_metadata, rm.paging_state.as_deref(), &values)));
@@ -723,6 +804,17 @@ struct Observed {
 
 fn conv_int(r: (i32,)) -> (i32, u8) {
     (r.0, 0)
+}
+
+thread_local! {
+    /// blob length of every row delivered by a sized-page case
+    static BLOB_LENS: RefCell<Vec<usize>> = const { RefCell::new(Vec::new()) };
+}
+
+fn conv_big(r: (i32, Vec<u8>)) -> (i32, u8) {
+    let ok = r.1 == blob_of(r.0, r.1.len());
+    BLOB_LENS.with(|b| b.borrow_mut().push(r.1.len()));
+    (r.0, if ok { 2 } else { 255 })
 }
 
 fn conv_row(r: scylla::value::Row) -> (i32, u8) {
@@ -954,6 +1046,7 @@ async fn run_case(case: &Case, ctx: &mut Ctx) -> String {
             ext: case.ext,
             always_full: case.always_full,
             ctl: case.ctl,
+            big: case.pages.iter().any(|p| p.body_bytes.is_some()),
             applied: vec![false; case.pages.len()],
             ..Default::default()
         };
@@ -961,6 +1054,15 @@ async fn run_case(case: &Case, ctx: &mut Ctx) -> String {
     if let Server::Node(node) = &env.node {
         node.log.lock().unwrap().clear();
     }
+    // every case prepares its own statement text (one PREPARE round trip): the prepared id tags the
+    // case's EXECUTE frames, so a request still in flight from an earlier case cannot touch this script
+    let case_no = CASE_NO.with(|c| {
+        c.set(c.get() + 1);
+        c.get()
+    });
+    // a client left broken by the previous case (its connection died on that case's account) is replaced once
+    let mut rebuilt = false;
+    let (mut prepared, unprepared_statement) = loop {
     if env.conn.is_none() {
       match &env.node {
         Server::Cluster(cluster) => {
@@ -1014,12 +1116,6 @@ async fn run_case(case: &Case, ctx: &mut Ctx) -> String {
         }
       }
     }
-    // every case prepares its own statement text (one PREPARE round trip): the prepared id tags the
-    // case's EXECUTE frames, so a request still in flight from an earlier case cannot touch this script
-    let case_no = CASE_NO.with(|c| {
-        c.set(c.get() + 1);
-        c.get()
-    });
     let text = format!("{} WHERE case_no = {}{}", QUERY, case_no, if case.with_values { " AND v = ? /*v*/" } else if case.pk_error && case.session { " AND p = ? AND q = ? /*pk2*/" } else if case.pk_error { " AND p = ? /*pk*/" } else { "" });
     if !case.ctl {
         env.script.lock().unwrap().statement_id = md5ish(&text);
@@ -1034,11 +1130,16 @@ async fn run_case(case: &Case, ctx: &mut Ctx) -> String {
         Client::Sess(s) => s.prepare(st).await.map_err(|e| e.to_string()),
         Client::Cache(c) => c.get_session().prepare(st).await.map_err(|e| e.to_string()),
     };
-    let mut prepared = match prepared {
-        Ok(p) => p,
-        Err(e) => {
-            ctx.fail(format!("harness: cannot prepare: {e}"));
-            return "HARNESS-ERROR".to_owned();
+        match prepared {
+            Ok(p) => break (p, unprepared_statement),
+            Err(_) if !rebuilt => {
+                rebuilt = true;
+                env.conn = None;
+            }
+            Err(e) => {
+                ctx.fail(format!("harness: cannot prepare: {e}"));
+                return "HARNESS-ERROR".to_owned();
+            }
         }
     };
     let has_timeout_fault = case.pages.iter().any(|p| p.faults.contains(&'T'));
@@ -1064,6 +1165,7 @@ async fn run_case(case: &Case, ctx: &mut Ctx) -> String {
     let consumer = case.consumer;
     let case_ext = case.ext;
     let case_ctl = case.ctl;
+    let case_big = case.pages.iter().any(|p| p.body_bytes.is_some());
     let progress = AtomicUsize::new(0);
     let env_node = &env.node;
     let body = async {
@@ -1141,7 +1243,13 @@ async fn run_case(case: &Case, ctx: &mut Ctx) -> String {
             };
             return obs;
         }
-        if case_ext {
+        if case_big {
+            BLOB_LENS.with(|b| b.borrow_mut().clear());
+            match pager.rows_stream::<(i32, Vec<u8>)>() {
+                Ok(stream) => consume(stream, consumer, conv_big, &mut obs, &progress, None).await,
+                Err(_) => obs.fin = "ctor:TypeCheck".to_owned(),
+            }
+        } else if case_ext {
             // the columns change from page to page: decode into untyped rows and check the shape per row
             match pager.rows_stream::<scylla::value::Row>() {
                 Ok(stream) => consume(stream, consumer, conv_row, &mut obs, &progress, None).await,
@@ -1278,7 +1386,16 @@ async fn run_case(case: &Case, ctx: &mut Ctx) -> String {
     // 1b. every row is decoded with the columns in force for ITS page (metadata-id extension: the
     //     columns change with the page that carries METADATA_CHANGED and stay changed afterwards)
     {
-        let expected: Vec<u8> = s.sent.iter().zip(s.sent_versions.iter()).flat_map(|(rows, v)| std::iter::repeat_n((*v % 2) as u8, rows.len())).collect();
+        let expected: Vec<u8> = s.sent.iter().zip(s.sent_versions.iter()).flat_map(|(rows, v)| std::iter::repeat_n(if s.big { 2 } else { (*v % 2) as u8 }, rows.len())).collect();
+        if s.big {
+            // contents intact: every delivered blob has the length that was sent (its bytes were checked on delivery)
+            let got = BLOB_LENS.with(|b| b.borrow().clone());
+            let m = got.len().min(s.sent_blob_lens.len());
+            if got[..m] != s.sent_blob_lens[..m] {
+                let i = (0..m).find(|i| got[*i] != s.sent_blob_lens[*i]).unwrap();
+                ctx.fail(format!("row #{} was delivered with a blob of {} bytes, the node sent {} bytes", i, got[i], s.sent_blob_lens[i]));
+            }
+        }
         let m = obs.shapes.len().min(expected.len());
         if obs.shapes[..m] != expected[..m] {
             let i = (0..m).find(|i| obs.shapes[*i] != expected[*i]).unwrap();
@@ -1302,6 +1419,15 @@ async fn run_case(case: &Case, ctx: &mut Ctx) -> String {
                 fmt_state(st),
                 fmt_state(&expected)
             ));
+        }
+    }
+    // 2a. a retry at a lowered consistency (downgrading policy, `Q` / `V`): the re-sent request carries ONE -
+    //     and, like every request, the same paging state (checked above)
+    for i in 1..s.execs.len() {
+        if "QV".contains(s.exec_answers[i - 1]) && s.execs[i].0 == s.execs[i - 1].0 {
+            if s.exec_cls[i] != 0x0001 {
+                ctx.fail(format!("request #{} retries page {} after a downgrade decision with consistency {:#06x} instead of ONE", i, s.execs[i].0, s.exec_cls[i]));
+            }
         }
     }
     // 2b. PartitionKeyError: the constructor fails before anything is sent
@@ -1364,20 +1490,43 @@ async fn run_case(case: &Case, ctx: &mut Ctx) -> String {
     // downgrading policy, idempotent statement: a WriteTimeout(SIMPLE, received > 0) is answered with
     // IgnoreWriteError - "treat the request as done": the documented outcome is a stream that ends
     // without error after the rows of the earlier pages (pager.rs 220-226, 278-290)
-    let ignored_page = if downgrading {
-        case.pages.iter().position(|p| {
-            let f: Vec<char> = p.faults.iter().copied().filter(|c| *c != 'd').collect();
-            matches!(f.as_slice(), ['W', ..] | ['u', 'W', ..])
-        })
-    } else {
+    // (downgrading_consistency.rs 122-181: one retry per page - `was_retry` - on a short ReadTimeout `Q` or an
+    // Unavailable with a replica alive `V`, at consistency ONE on the same target; after it every error is final)
+    let dg_walk = |p: &PageSpec| -> Option<char> {
+        // 'I' = ignored write error ends the stream here, 'F' = final failure here, None = the page is served
+        let (mut unprepared, mut was_retry) = (false, false);
+        for c in p.faults.iter() {
+            match c {
+                'd' => {}
+                'u' => {
+                    if unprepared {
+                        return Some('F');
+                    }
+                    unprepared = true;
+                }
+                'Q' | 'V' if !was_retry => {
+                    was_retry = true;
+                    unprepared = false;
+                }
+                'W' if !was_retry => return Some('I'),
+                _ => return Some('F'),
+            }
+        }
         None
     };
+    let ignored_page = if downgrading { case.pages.iter().position(|p| dg_walk(p).is_some()).filter(|k| dg_walk(&case.pages[*k]) == Some('I')) } else { None };
     let cluster = case.cluster;
     let idempotent = case.idempotent;
-    let fatal_page = case.pages.iter().position(|p| {
+    // pages fetched after a `kill` have one connectable target fewer
+    let killed_from_page = s.killed.map(|(at, _)| s.execs.get(at).map(|e| e.0).unwrap_or(usize::MAX));
+    let fatal_page = case.pages.iter().enumerate().position(|(page_idx, p)| {
+        if downgrading {
+            return dg_walk(p) == Some('F');
+        }
         if cluster > 0 {
             // DefaultRetryPolicy (default.rs 57-170) over a plan of `cluster` targets, one retry session per page
-            let (mut targets_left, mut unavailable_retried, mut read_retried) = (cluster, false, false);
+            let alive = if killed_from_page.is_some_and(|q| page_idx >= q) { cluster - 1 } else { cluster };
+            let (mut targets_left, mut unavailable_retried, mut read_retried) = (alive, false, false);
             for c in p.faults.iter() {
                 let next_target = match c {
                     'd' => continue,
@@ -1513,6 +1662,7 @@ async fn run_case(case: &Case, ctx: &mut Ctx) -> String {
             ));
         }
     }
+    let killed_at = s.killed;
     let log: Vec<String> = s.execs.iter().map(|(_, st)| fmt_state(st)).collect();
     drop(s);
     let mut out = format!(
@@ -1521,6 +1671,9 @@ async fn run_case(case: &Case, ctx: &mut Ctx) -> String {
         obs.fin,
         if log.is_empty() { "-".to_owned() } else { log.join(",") }
     );
+    if let Some((at, _)) = killed_at {
+        out.push_str(&format!(" kill={}", at));
+    }
     if case.ext {
         // run-length encoding of the column shape of every delivered row
         let mut rle: Vec<(u8, usize)> = Vec::new();
@@ -1626,6 +1779,7 @@ fn build(sizes: &[usize], sts: &[Vec<u8>], faults: &[Vec<char>]) -> Vec<PageSpec
             state: if i + 1 == n { None } else { Some(sts[i].clone()) },
             faults: faults.get(i).cloned().unwrap_or_default(),
             meta_change: false,
+            body_bytes: None,
         })
         .collect()
 }
@@ -1663,6 +1817,58 @@ pub fn generate(rng: &mut Rng, tier: Tier, emit: &mut dyn FnMut(String)) {
     gen_empty_pages(rng, tier == Tier::Thorough, emit);
     gen_dead_coordinator(rng, tier == Tier::Thorough, emit);
     gen_entry_points(rng, tier == Tier::Thorough, emit);
+    gen_big_pages(rng, tier == Tier::Thorough, emit);
+}
+
+/// Page SIZE in bytes as a dimension ("a final page of any size"): RESULT bodies of exactly 2^20-1, 2^20,
+/// 2^20+1 bytes and of a few MiB (the response reader preallocates at most 1 MiB and must go on reading),
+/// as the first, a middle and the last page, with and without metadata, through the single-connection,
+/// session, unprepared and cluster pagers; every row's blob is checked byte by byte on delivery.
+fn gen_big_pages(rng: &mut Rng, thorough: bool, emit: &mut dyn FnMut(String)) {
+    const MIB: usize = 1 << 20;
+    let sizes_b: Vec<usize> =
+        if thorough { vec![300_000, MIB - 1, MIB, MIB + 1, MIB + 4097, 2 * MIB, 2 * MIB + 1, 3 * MIB + 12345, 5 * MIB] } else { vec![MIB - 1, MIB, MIB + 1, 3 * MIB + 12345] };
+    let kinds = ["pg", "sess", "clu2i", "squery", "scache"];
+    let mut tick = 0usize;
+    for b in &sizes_b {
+        for pos in 0..3usize {
+            for kind in kinds {
+                tick += 1;
+                if !thorough && tick % 3 != 0 && !(kind == "pg" && *b > MIB) {
+                    continue;
+                }
+                // three pages of 1..3 rows; the sized one at `pos` (0 = first, 1 = middle, 2 = last)
+                let sizes: Vec<usize> = (0..3).map(|_| 1 + rng.below(3) as usize).collect();
+                let sts = states(rng, 3, false);
+                let mut faults = vec![vec![]; 3];
+                if tick % 5 == 0 {
+                    faults[pos] = vec![if kind == "pg" || kind == "scache" { 'u' } else { 'R' }];
+                }
+                let mut pages = build(&sizes, &sts, &faults);
+                pages[pos].body_bytes = Some(*b);
+                if tick % 4 == 0 {
+                    pages[(pos + 1) % 3].body_bytes = Some(MIB + 1 + rng.below(1000) as usize);
+                }
+                let consumer = match tick % 7 {
+                    0 => Consumer::Slow,
+                    1 => Consumer::Timed,
+                    2 => Consumer::Drop(1 + tick % 3),
+                    _ => Consumer::Eager,
+                };
+                emit(with_kind(fmt_case(tick % 2 == 0, consumer, &pages), kind));
+            }
+        }
+    }
+    // a single page, and a last page, of several MiB
+    for (i, b) in [MIB + 1, 4 * MIB + 3].iter().enumerate() {
+        let sts = states(rng, 2, false);
+        let mut one = build(&[2], &sts, &[]);
+        one[0].body_bytes = Some(*b);
+        emit(fmt_case(i % 2 == 0, Consumer::Eager, &one));
+        let mut two = build(&[1, 3], &sts, &[]);
+        two[1].body_bytes = Some(*b);
+        emit(fmt_sess_case(i % 2 == 1, Consumer::Eager, &two));
+    }
 }
 
 /// The previous coordinator is stopped between two pages (`kill<k>`): its pool yields no connection, the
@@ -1680,6 +1886,14 @@ fn gen_dead_coordinator(rng: &mut Rng, thorough: bool, emit: &mut dyn FnMut(Stri
         if i % 3 == 0 {
             let j = rng.below(n as u64) as usize;
             faults[j] = vec![*rng.pick(&['R', 'd'])];
+        }
+        let kind = kinds[i % kinds.len()];
+        if kind.as_bytes()[3] == b'2' && i % 2 == 1 {
+            // two nodes: the plan is determined by the coordinator, next-target hops are determinate
+            for _ in 0..(1 + rng.below(2)) {
+                let j = rng.below(n as u64) as usize;
+                faults[j].push(*rng.pick(&['o', 'b', 'U', 's', 'R']));
+            }
         }
         let k = rng.below(total as u64 + 1) as usize;
         emit(with_kind(fmt_case(i % 2 == 0, Consumer::Kill(k), &build(&sizes, &sts, &faults)), kinds[i % kinds.len()]));
@@ -2139,7 +2353,7 @@ fn gen_downgrading(rng: &mut Rng, thorough: bool, emit: &mut dyn FnMut(String)) 
         let n = sizes.len();
         let total: usize = sizes.iter().sum();
         for k in 0..n {
-            for f in ["W", "uW", "dW", "o", "u"] {
+            for f in ["W", "uW", "dW", "o", "u", "Q", "V", "QW", "VQ", "Qo", "uQ", "Vu", "QQ"] {
                 let mut faults = vec![vec![]; n];
                 faults[k] = f.chars().collect();
                 let sts = states(rng, n, false);
@@ -2161,6 +2375,11 @@ fn gen_downgrading(rng: &mut Rng, thorough: bool, emit: &mut dyn FnMut(String)) 
         for f in faults.iter_mut() {
             if rng.chance(1, 6) {
                 *f = vec![*rng.pick(&['u', 'd'])];
+            }
+        }
+        for f in faults.iter_mut() {
+            if rng.chance(1, 7) {
+                f.push(*rng.pick(&['Q', 'V']));
             }
         }
         if rng.chance(4, 5) {
